@@ -2244,7 +2244,7 @@ class Component_Decl(Base):  # R442
             i = line.find("=")
             if i != -1:
                 char_length = repmap(line[1:i].strip())
-                newline = repmap(newline[i:].lstrip())
+                newline = repmap(line[i:].lstrip())
             else:
                 char_length = repmap(newline[1:].strip())
                 newline = ""
